@@ -120,6 +120,7 @@ def _resources():
 
 
 def run(tier="quick", seed=0):
+    from rig.links import Links
     warnings.simplefilter("ignore")
     from rig.place_and_route import Machine, Cores, SDRAM
     from rig.netlist import Net
@@ -259,7 +260,7 @@ def run(tier="quick", seed=0):
         def mk():
             machine = Machine(w, h, chip_resources=dict((RES[i], c) for i, c in enumerate(p["caps"])),
                               chip_resource_exceptions=dict((c, dict((RES[i], q) for i, q in enumerate(v))) for c, v in p["exc"].items()),
-                              dead_chips=set(dead))
+                              dead_chips=set(dead), dead_links=set((x_, y_, Links(l_)) for x_, y_, l_ in p.get("dead_links", ())))
             vr = OrderedDict()
             for i, n in enumerate(p["needs"]):
                 # vertices needing nothing of a resource sometimes simply do not mention it
@@ -474,6 +475,36 @@ def run(tier="quick", seed=0):
                                     p = {"w": w, "h": h, "caps": (4,), "dead": (dchip,), "exc": exc, "needs": [(1,), (1,)],
                                          "loc": [(1, lchip)] if pinned else [], "same": [], "gres": [(0, 0, g)], "lres": [], "nets": [(1, [2], 1.0)]}
                                     evaluate(p, (0,), (0,), (0.1,), only=("sequential", "breadth_first", "hilbert", "rcm", "rand", "sa_python_kernel"))
+        # (H) links dead in ONE direction only: a chip that can send but not be reached, a chip that can be reached but not send,
+        #     a machine cut in two in one direction - placement does not need links at all: every placer returns (and places)
+        def nowrap(w, h):
+            out = []
+            for x in range(w):
+                for y in range(h):
+                    for l, (dx, dy) in enumerate(((1, 0), (1, 1), (0, 1), (-1, 0), (-1, -1), (0, -1))):
+                        if not (0 <= x + dx < w and 0 <= y + dy < h):
+                            out.append((x, y, l))
+            return out
+        hseed = 0
+        for (w, h) in ((2, 1), (3, 3), (2, 2), (4, 1)):
+            base = nowrap(w, h)
+            chips = [(x, y) for x in range(w) for y in range(h)]
+            vec = ((1, 0), (1, 1), (0, 1), (-1, 0), (-1, -1), (0, -1))
+            for victim in chips[:3] + chips[-1:]:
+                incoming = [(victim[0] - dx, victim[1] - dy, l) for l, (dx, dy) in enumerate(vec) if 0 <= victim[0] - dx < w and 0 <= victim[1] - dy < h]
+                outgoing = [(victim[0], victim[1], l) for l, (dx, dy) in enumerate(vec) if 0 <= victim[0] + dx < w and 0 <= victim[1] + dy < h]
+                for extra in (incoming, outgoing, incoming[:1], outgoing[:1]):
+                    p = {"w": w, "h": h, "caps": (2,), "dead": (), "exc": {}, "needs": [(1,)] * min(2 * w * h - 1, 5), "loc": [], "same": [],
+                         "gres": [], "lres": [], "nets": [(1, [2], 1.0), (2, [3], 1.0)], "dead_links": tuple(base) + tuple(extra)}
+                    hseed += 1
+                    evaluate(p, (hseed % 3,), (hseed % 3,), (0.1,), only=("sequential", "breadth_first", "hilbert", "rcm", "rand", "sa_python_kernel"))
+        # (I) the annealer on the smallest netlists there are (two or three connected one-core vertices on a row of one-core chips),
+        #     full effort, many seeds: a run of a few steps only, all accepted, all alike
+        for (w, nv_) in ((8, 2), (6, 3), (4, 2), (12, 2)):
+            p = {"w": w, "h": 1, "caps": (1,), "dead": (), "exc": {}, "needs": [(1,)] * nv_, "loc": [], "same": [],
+                 "gres": [], "lres": [], "nets": [(i, [i + 1], 1.0) for i in range(1, nv_)]}
+            iseeds = tuple(range(24 if thorough else 12))
+            evaluate(p, iseeds, (0,), (1.0,), only=("sa_python_kernel",))
         # (F) machines of more than a thousand chips with a handful of vertices: the orderings the placers compute over the
         #     whole machine (breadth-first / depth-first / Hilbert / RCM walks over the chip graph) must cope with its size
         for (w, h) in ((36, 36), (40, 30)):
@@ -490,7 +521,7 @@ def run(tier="quick", seed=0):
     viol = [v for _, v in sorted(found.values(), key=lambda sv: sv[1]["clause"])]
     return {"name": "c02_place", "evaluations": st["ev"], "distinct_nontrivial": st["problems"],
             "rule": "a problem = (machine, vertex need vectors, location set, same-chip set, global reservations, per-chip reservations, nets) from menus: "
-                    "family G: 3x1 and 2x2 machines with a resource exception on a dead chip (0..2 cores) and on a live chip (1..2), a global reservation of 1..3 cores, a vertex pinned to the live exception chip or not; family F: 36x36 and 40x30 machines (one dead chip) with 20 one-core vertices in a chain, the five placers that order the whole machine; the annealer (Python kernel) also with an observing progress callback; family E: 14 larger / elongated machine shapes (1x4 ... 16x1, 3x12, 6x4) with one core per chip, exactly filled with one-core vertices, with and without a dead chip, every placer; %d machine shapes (1x1, 2x1, 1x2, 2x2 with dead-chip sets incl. all-dead) x %d resource layouts (chip resources (4,4)/(2)/(3,2)/(1,1)/(3) of Cores/SDRAM; "
+                    "family H: 2x1, 3x3, 2x2, 4x1 non-wrapping machines on which one chip's incoming links / outgoing links / one of either are dead in that direction only, six placers; family I: the annealer (Python kernel, effort 1.0, 12 (24) seeds) on two or three connected one-core vertices on a row of 4-12 one-core chips; family G: 3x1 and 2x2 machines with a resource exception on a dead chip (0..2 cores) and on a live chip (1..2), a global reservation of 1..3 cores, a vertex pinned to the live exception chip or not; family F: 36x36 and 40x30 machines (one dead chip) with 20 one-core vertices in a chain, the five placers that order the whole machine; the annealer (Python kernel) also with an observing progress callback; family E: 14 larger / elongated machine shapes (1x4 ... 16x1, 3x12, 6x4) with one core per chip, exactly filled with one-core vertices, with and without a dead chip, every placer; %d machine shapes (1x1, 2x1, 1x2, 2x2 with dead-chip sets incl. all-dead) x %d resource layouts (chip resources (4,4)/(2)/(3,2)/(1,1)/(3) of Cores/SDRAM; "
                     "0-2 chip_resource_exceptions on the first / last / a dead chip), "
                     "%d need-vector sets (all for <= 2 vertices with needs 0..2 of 2 resources; 3 and 4 vertices: all single-resource 0..2 / 0..1 / 1..2 vectors and mixed ones%s), "
                     "%d location sets (<= 3, duplicated, on a dead chip), %d same-chip sets (chained, duplicated member, repeated group, overlapping, empty/singleton), "
